@@ -122,7 +122,7 @@ var consOps = map[string]bool{"not": true, "and": true, "or": true, "=>": true, 
 	"add": true, "sub": true, "mul": true, "div": true, "rem": true, "neg": true, "band": true, "bor": true, "bxor": true, "bandnot": true, "bnot": true,
 	"shl": true, "shr": true, "lt": true, "le": true, "conv": true, "i2f": true, "f2i": true, "select": true, "store": true, "constarr": true,
 	"fadd": true, "fsub": true, "fmul": true, "fdiv": true, "fneg": true, "fabs": true, "fsqrt": true, "fceil": true, "flt": true, "fle": true, "feq": true,
-	"fisnan": true, "fisinf": true, "iadd": true, "isub": true, "fldiv": true, "flmod": true}
+	"fisnan": true, "fisinf": true, "tsub": true, "iadd": true, "isub": true, "fldiv": true, "flmod": true}
 var consTable = map[string]*Term{}
 var termMu sync.Mutex
 
@@ -882,6 +882,7 @@ type smtPrinter struct {
 	nq      int
 	relaxed bool
 	side    []string // side conditions of the relaxed float model (no overflow, no division by zero): proved with the goal
+	opSide  map[*Term][]string // per float operation
 	nfp     int
 }
 
@@ -1035,6 +1036,11 @@ func (p *smtPrinter) pr(t *Term, bound map[string]bool, bc map[*Term]bool) strin
 		return n
 	}
 	s := p.pr1(t, bound, bc)
+	if p.relaxed && len(t.Args) > 0 && (t.Sort.K == SFP || t.Op == "f2i") && !hasBound(t, bound, bc) {
+		// a float operation denotes one rounded value: every occurrence must print to the same rounding variable
+		p.names[t] = s
+		return s
+	}
 	if p.refs[t] > 1 && len(t.Args) > 0 && len(s) > 24 && !hasBound(t, bound, bc) {
 		p.nq++
 		n := fmt.Sprintf("t!%d", p.nq)
@@ -1271,8 +1277,13 @@ func (p *smtPrinter) prRelaxed(t *Term, rec func(*Term) string) string {
 		p.nfp++
 		r := fmt.Sprintf("fp!%d", p.nfp)
 		ev := fmt.Sprintf("fpe!%d", p.nfp)
-		p.defs = append(p.defs, fmt.Sprintf("(define-fun %s () Real %s)", ev, e), fmt.Sprintf("(declare-fun %s () Real)", r), fmt.Sprintf("(assert (fprnd %s %s))", ev, r))
-		p.side = append(p.side, fmt.Sprintf("(<= (fpabs %s) %s)", ev, maxf))
+		// rounding is a function of the exact value (equal exact values round equally)
+		p.helper("fprn", "(declare-fun fprn (Real) Real)")
+		// round-to-nearest is monotone and exact on representable values (a few small integers suffice here)
+		p.helper("fprn-mono", "(assert (forall ((x Real) (y Real)) (! (=> (<= x y) (<= (fprn x) (fprn y))) :pattern ((fprn x) (fprn y)))))")
+		p.helper("fprn-exact", "(assert (and (= (fprn 0.0) 0.0) (= (fprn 1.0) 1.0) (= (fprn (- 1.0)) (- 1.0)) (= (fprn 2.0) 2.0)))")
+		p.defs = append(p.defs, fmt.Sprintf("(define-fun %s () Real %s)", ev, e), fmt.Sprintf("(define-fun %s () Real (fprn %s))", r, ev), fmt.Sprintf("(assert (fprnd %s %s))", ev, r))
+		p.addSide(t, fmt.Sprintf("(<= (fpabs %s) %s)", ev, maxf))
 		return r
 	}
 	switch t.Op {
@@ -1290,7 +1301,7 @@ func (p *smtPrinter) prRelaxed(t *Term, rec func(*Term) string) string {
 		return round("(* " + a(0) + " " + a(1) + ")")
 	case "fdiv":
 		d := a(1)
-		p.side = append(p.side, "(not (= "+d+" 0.0))")
+		p.addSide(t, "(not (= "+d+" 0.0))")
 		return round("(/ " + a(0) + " " + d + ")")
 	case "fneg":
 		return "(- " + a(0) + ")"
@@ -1302,7 +1313,7 @@ func (p *smtPrinter) prRelaxed(t *Term, rec func(*Term) string) string {
 		p.nfp++
 		r := fmt.Sprintf("fp!%d", p.nfp)
 		e := a(0)
-		p.side = append(p.side, "(>= "+e+" 0.0)")
+		p.addSide(t, "(>= "+e+" 0.0)")
 		p.defs = append(p.defs, fmt.Sprintf("(declare-fun %s () Real)", r),
 			fmt.Sprintf("(assert (and (>= %s 0.0) (<= (* %s %s) (* %s (+ 1.0 (/ 1.0 2251799813685248.0)))) (>= (* %s %s) (* %s (- 1.0 (/ 1.0 2251799813685248.0))))))", r, r, r, e, r, r, e))
 		return r
@@ -1313,12 +1324,41 @@ func (p *smtPrinter) prRelaxed(t *Term, rec func(*Term) string) string {
 		if t.Args[0].Sort.K == SGoInt && t.Args[0].Sort.W <= 32 {
 			return x // exact
 		}
-		return round(x)
+		// exact for |x| <= 2^53
+		r := round(x)
+		return "(ite (and (<= (- 9007199254740992) " + a(0) + ") (<= " + a(0) + " 9007199254740992)) " + x + " " + r + ")"
 	case "f2i":
 		p.helper("rtz", "(define-fun rtz ((r Real)) Int (ite (>= r 0.0) (to_int r) (- (to_int (- r)))))")
 		return "(" + p.wrapFn(t.Sort) + " (rtz " + a(0) + "))"
 	}
 	panic("prRelaxed: " + t.Op)
+}
+
+func (p *smtPrinter) addSide(t *Term, c string) {
+	if p.opSide == nil {
+		p.opSide = map[*Term][]string{}
+	}
+	p.opSide[t] = append(p.opSide[t], c)
+	p.side = append(p.side, c)
+}
+
+// sidesOf collects the side conditions of all float operations occurring in t.
+func (p *smtPrinter) sidesOf(t *Term) []string {
+	var out []string
+	seen := map[*Term]bool{}
+	var rec func(t *Term)
+	rec = func(t *Term) {
+		if seen[t] {
+			return
+		}
+		seen[t] = true
+		out = append(out, p.opSide[t]...)
+		for _, a := range t.Args {
+			rec(a)
+		}
+	}
+	rec(t)
+	return out
 }
 
 func pow2(n int) string { return new(big.Int).Lsh(big.NewInt(1), uint(n)).String() }
@@ -1333,6 +1373,10 @@ func (p *smtPrinter) prInt(t *Term, rec func(*Term) string) string {
 	}
 	a := func(i int) string { return rec(t.Args[i]) }
 	switch t.Op {
+	case "tsub":
+		// (t.sec - u.sec)*1e9 + (t.nsec - u.nsec), saturated to the int64 range (time.Time.Sub)
+		p.helper("clamp64", "(define-fun clamp64 ((x Int)) Int (ite (< x (- 9223372036854775808)) (- 9223372036854775808) (ite (> x 9223372036854775807) 9223372036854775807 x)))")
+		return "(clamp64 (+ (* (- " + a(0) + " " + a(2) + ") 1000000000) (- " + a(1) + " " + a(3) + ")))"
 	case "iadd":
 		return "(+ " + a(0) + " " + a(1) + ")"
 	case "isub":
@@ -1587,6 +1631,12 @@ func (p *smtPrinter) prBV(t *Term, rec func(*Term) string) string {
 	a := func(i int) string { return rec(t.Args[i]) }
 	as := t.Args[0].Sort
 	switch t.Op {
+	case "tsub":
+		se := func(x string) string { return "((_ sign_extend 64) " + x + ")" }
+		d := "(bvadd (bvmul (bvsub " + se(a(0)) + " " + se(a(2)) + ") (_ bv1000000000 128)) (bvsub " + se(a(1)) + " " + se(a(3)) + "))"
+		lo := "((_ sign_extend 64) (_ bv9223372036854775808 64))"
+		hi := "((_ zero_extend 64) (_ bv9223372036854775807 64))"
+		return "(let ((ts!d " + d + ")) ((_ extract 63 0) (ite (bvslt ts!d " + lo + ") " + lo + " (ite (bvsgt ts!d " + hi + ") " + hi + " ts!d))))"
 	case "add", "iadd":
 		return "(bvadd " + a(0) + " " + a(1) + ")"
 	case "sub", "isub":
@@ -1755,6 +1805,7 @@ func buildScript(mode Mode, facts []*Term, goal *Term, values []*Term, forCVC5 b
 		}
 		bc := map[*Term]bool{}
 		goalIdx := -1
+		var printed []*Term
 		for i, f := range all {
 			if f.isTrue() {
 				continue
@@ -1762,22 +1813,29 @@ func buildScript(mode Mode, facts []*Term, goal *Term, values []*Term, forCVC5 b
 			if i == len(all)-1 {
 				goalIdx = len(asserts)
 			}
-			asserts = append(asserts, "(assert "+p.pr(f, bound, bc)+")")
+			asserts = append(asserts, p.pr(f, bound, bc))
+			printed = append(printed, f)
 		}
 		var vals []string
 		for _, v := range values {
 			vals = append(vals, p.pr(v, bound, bc))
 		}
-		if p.relaxed && len(p.side) > 0 {
-			// replace (not goal) by: not (goal /\ side conditions)
-			sideNeg := "(not (and " + strings.Join(p.side, " ") + "))"
-			if goalIdx >= 0 {
-				last := asserts[goalIdx]
-				inner := strings.TrimSuffix(strings.TrimPrefix(last, "(assert "), ")")
-				asserts[goalIdx] = "(assert (or " + inner + " " + sideNeg + "))"
-			} else {
-				asserts = append(asserts, "(assert "+sideNeg+")")
+		for k := range asserts {
+			body := asserts[k]
+			if p.relaxed {
+				// a relaxed fact is used only where the rounding model applies to all of its float operations;
+				// the (negated) goal additionally has to establish that
+				if sd := p.sidesOf(printed[k]); len(sd) > 0 {
+					cond := "(and " + strings.Join(sd, " ") + ")"
+					if k == goalIdx {
+						// printed[k] is (not goal): refute  goal /\ sides
+						body = "(or " + body + " (not " + cond + "))"
+					} else {
+						body = "(=> " + cond + " " + body + ")"
+					}
+				}
 			}
+			asserts[k] = "(assert " + body + ")"
 		}
 		var sb strings.Builder
 		if forCVC5 {
